@@ -166,12 +166,51 @@ if not VIOLATED:
         if VIOLATED: break
 """, "expect": "no writer overwrites or truncates an existing file"}
 
+INPUT_REPLAY = lambda w: {"code": """
+import numpy as np, tempfile, warnings, verif_probes as VP
+from pathlib import Path
+from pyxel.outputs import utils as U
+from pyxel.outputs.utils import save_to_files
+from pyxel.pipelines import DetectionPipeline, Processor
+warnings.simplefilter('ignore')
+VIOLATED, DETAIL = False, 'a writer leaves the array it is given as it was; a bucket saved in several formats holds the same values in each'
+d = Path(tempfile.mkdtemp())
+for name in ('write_to_jpg', 'write_to_npy', 'write_to_fits'):
+    a = np.linspace(100.0, 1839.0, 12).reshape(3, 4); keep = a.copy()
+    kw = dict(filename=d / f'x_{name}.{name.split("_")[-1]}', data=a, overwrite=False)
+    if name == 'write_to_fits': kw['header'] = None
+    getattr(U, name)(**kw)
+    if not np.array_equal(a, keep):
+        VIOLATED, DETAIL = True, f'{name} changed the array it was given: now between {a.min()} and {a.max()} (was 100 .. 1839)'; break
+for name in ('to_jpg', 'to_png', 'to_npy', 'to_fits', 'to_txt'):
+    if VIOLATED: break
+    a = np.linspace(100.0, 1839.0, 12).reshape(3, 4)
+    if name in ('to_jpg', 'to_png'): a = (a / 8).astype(np.uint8)          # the image writers of this layer take 8-bit data
+    keep = a.copy()
+    getattr(U, name)(current_output_folder=d, data=a, name='y_' + name, with_auto_suffix=False)
+    if not np.array_equal(a, keep):
+        VIOLATED, DETAIL = True, f'{name} changed the array it was given'
+if not VIOLATED:
+    det = VP.detector(rows=3, cols=4); det.pixel.array = np.linspace(100.0, 1839.0, 12).reshape(3, 4)
+    proc = Processor(detector=det, pipeline=DetectionPipeline())
+    folder = Path(tempfile.mkdtemp())
+    save_to_files(folder=folder, processor=proc, filenames=[Path('detector_pixel.jpg'), Path('detector_pixel.npy')], header=None)
+    back = np.load(folder / 'detector_pixel.npy')
+    if back.min() != 100.0 or back.max() != 1839.0 or det.pixel.array.max() != 1839.0:
+        VIOLATED, DETAIL = True, f'pixel bucket saved as jpg then npy: the npy file holds {back.min()} .. {back.max()}, the bucket {det.pixel.array.min()} .. {det.pixel.array.max()} (was 100 .. 1839)'
+""", "expect": "no writer modifies the array it writes"}
+
 WRITERS = [("to_fits", True), ("to_npy", True), ("to_txt", True), ("to_csv", False), ("to_png", True), ("to_jpg", True)]
 LOW_WRITERS = ["write_to_fits", "write_to_npy", "write_to_jpg"]
 METHOD_WRITERS = [("save_to_fits", True), ("save_to_npy", True), ("save_to_txt", True), ("save_to_csv", False), ("save_to_png", True), ("save_to_jpeg", True), ("save_to_jpg", True)]
 
 
 def check_writes(u, p, tag, rp):
+    # the data handed to a writer is the detector's own bucket (save_to_files passes np.asarray(bucket)): the writer must leave it as it is
+    d = getattr(p.ex, "data", None)
+    if isinstance(d, VRef) and isinstance(p.st.cell(d), HArr):
+        touched = any(e[0] == "lib_writes" and e[1] == d.addr for e in p.st.events) or p.st.cell(d)._elem is not getattr(p.ex, "data_elem", p.st.cell(d)._elem)
+        u.oblige(p, f"write.input_untouched[{tag}]", not touched, {"data": "the array handed to the writer was written to"}, INPUT_REPLAY)
     for e in p.st.events:
         if e[0] == "delete":
             # nothing that was there when the call began may be removed: the entry must be known absent in the initial file system
@@ -199,6 +238,7 @@ def write_unit(u: Unit):
                     kw["run_number"] = VInt(z3.Int("run_number"))
                     ex.st.assume(z3.Int("run_number") >= 0)
                 ex.data = data
+                ex.data_elem = ex.st.cell(data)._elem if isinstance(data, VRef) else None
                 return [], kw
             ps = u.paths(fi, setup, cfg, label=f"{name}[auto={auto}]")
             n_ret = 0
@@ -227,6 +267,7 @@ def write_unit(u: Unit):
                     kw["run_number"] = VInt(z3.Int("run_number"))
                     ex.st.assume(z3.Int("run_number") >= 0)
                 ex.data = data
+                ex.data_elem = ex.st.cell(data)._elem if isinstance(data, VRef) else None
                 return [me], kw
             ps = u.paths(fi, setup, cfg, label=f"Outputs.{name}[auto={auto}]")
             n_ret = 0
@@ -245,6 +286,7 @@ def write_unit(u: Unit):
         for overwrite in (False,):
             def setup(ex, name=name):
                 data = ex.st.alloc(HArr((z3.Int("dr"), z3.Int("dc")), VDtype("float64"), lambda ix: VFloat(z3.RealVal(1))))
+                ex.data, ex.data_elem = data, ex.st.cell(data)._elem
                 kw = {"filename": FSM.mk_path(ex, z3.String("filename")), "data": data, "overwrite": VBool(False)}
                 if name == "write_to_fits":
                     kw["header"] = NONE
